@@ -41,9 +41,14 @@ func (m *Model) PullAccessAttempts(ctx context.Context, opts ...resource.ReadOpt
 		defer close(send)
 		for change := range recv {
 			value := change.Value.(*traits.AccessAttempt)
-			send <- PullAccessAttemptsChange{
+			select {
+			case <-ctx.Done():
+				// the subscriber may have stopped receiving: do not wait for it once it has cancelled
+				return
+			case send <- PullAccessAttemptsChange{
 				Value:      value,
 				ChangeTime: change.ChangeTime,
+			}:
 			}
 		}
 	}()
